@@ -29,6 +29,7 @@ type HarnessSpec struct {
 	Schedule bool
 	MapOrder bool
 	MapOrderFilter string
+	BudgetObligation string
 	Preempt  int
 	Race     bool
 	PoolDirty bool
@@ -350,7 +351,7 @@ func cmdCheck(args []string) {
 			to = 20000
 		}
 		cfg := RunConfig{Harness: s.Name, Pkg: modPath + "/internal/zz" + s.Pkg, Params: params, Solver: parseSolverKind(s.Solver), TimeoutMS: to,
-			MaxSteps: maxSteps, WallBudget: wall, Workers: *workers, ScheduleMode: s.Schedule, MapOrderMode: s.MapOrder, MapOrderFilter: s.MapOrderFilter, PreemptBound: s.Preempt,
+			MaxSteps: maxSteps, WallBudget: wall, Workers: *workers, ScheduleMode: s.Schedule, MapOrderMode: s.MapOrder, MapOrderFilter: s.MapOrderFilter, BudgetObligation: s.BudgetObligation, PreemptBound: s.Preempt,
 			Race: s.Race, PoolDirty: s.PoolDirty}
 		hr := explore(ld, cfg)
 		totalPaths += hr.Paths
@@ -447,7 +448,11 @@ func cmdCheck(args []string) {
 						natBin = rb
 					}
 				}
-				res, nout, _ := runNative(natBin, *verifDir, s.Name, []string{tmpf}, 4*time.Minute, rep)
+				nto := 4 * time.Minute
+				if c.Kind == "hang" {
+					nto = 30 * time.Second // a run that does not return confirms it
+				}
+				res, nout, _ := runNative(natBin, *verifDir, s.Name, []string{tmpf}, nto, rep)
 				os.Remove(tmpf)
 				r := res[0]
 				if c.Kind == "race" && strings.Contains(nout, "DATA RACE") {
@@ -462,7 +467,7 @@ func cmdCheck(args []string) {
 					}
 				case "panic":
 					confirmed = strings.HasPrefix(r.Outcome, "panic")
-				case "deadlock", "fatal":
+				case "deadlock", "fatal", "hang":
 					confirmed = r.Outcome == "process-died"
 				}
 				if !confirmed {
